@@ -556,4 +556,41 @@ _PM = "packages/llama-agents-server/src/llama_agents/server/_store/memory_workfl
 _PS = "packages/llama-agents-server/src/llama_agents/server/_store/sqlite/sqlite_workflow_store.py"
 _PA = "packages/llama-agents-server/src/llama_agents/server/_store/abstract_workflow_store.py"
 
-TWINS: list[Twin] = []
+TWINS: list[Twin] = [
+    # ---- R1 breaking
+    Twin("memory: is_idle=False ignored", _PM, "if query.is_idle != handler_is_idle:", "if query.is_idle and not handler_is_idle:", "C24.R1"),
+    Twin("sqlite: is_idle tested by truthiness (False means no filter)", _PS, "        if query.is_idle is not None:\n            if query.is_idle:", "        if query.is_idle:\n            if query.is_idle:", "C24.R1"),
+    Twin("sqlite: idle clauses swapped", _PS, 'clauses.append("idle_since IS NOT NULL")\n            else:\n                clauses.append("idle_since IS NULL")', 'clauses.append("idle_since IS NULL")\n            else:\n                clauses.append("idle_since IS NOT NULL")', "C24.R1"),
+    Twin("sqlite: delete joins its filters with OR while query uses AND", _PS, "sql = f\"DELETE FROM handlers WHERE {' AND '.join(clauses)}\"", "sql = f\"DELETE FROM handlers WHERE {' OR '.join(clauses)}\"", "C24.R1"),
+    Twin("sqlite: run_id filter applied to the handler_id column", _PS, 'add_in_clause("run_id", query.run_id_in)', 'add_in_clause("handler_id", query.run_id_in)', "C24.R1"),
+    Twin("sqlite: upsert forgets the newest column", _PS, "completed_at = excluded.completed_at,\n                    idle_since = excluded.idle_since", "completed_at = excluded.completed_at", "C24.R1"),
+    Twin("memory: status filter compares the workflow name", _PM, "if handler.status not in query.status_in:", "if handler.workflow_name not in query.status_in:", "C24.R1"),
+    Twin("memory: empty handler_id list treated as no filter", _PM, "        if len(query.handler_id_in) == 0:\n            return False\n        if handler.handler_id not in query.handler_id_in:", "        if query.handler_id_in and handler.handler_id not in query.handler_id_in:", "C24.R1"),
+    Twin("sqlite: empty status list treated as no filter", _PS, "            if len(query.status_in) == 0:\n                return None\n            add_in_clause(\"status\", query.status_in)", "            if len(query.status_in) > 0:\n                add_in_clause(\"status\", query.status_in)", "C24.R1"),
+    Twin("memory: delete keeps what it should remove and removes the rest", _PM, "            for handler_id, handler in list(self.handlers.items())\n            if _matches_query(handler, query)", "            for handler_id, handler in list(self.handlers.items())\n            if not _matches_query(handler, query)", "C24.R1"),
+    # ---- R2 breaking (new shapes: the unchanged tree already fails repeat / reopen / delete)
+    Twin("cap comparison off by one", _PM, "while len(self._terminal_queue) > self.max_completed:", "while len(self._terminal_queue) >= self.max_completed:", "C24.R2"),
+    Twin("every upsert is queued as a completion", _PM, "        if is_terminal_status(handler.status):\n            self._terminal_queue.append(handler.handler_id)\n            self._evict_oldest_completed()", "        self._terminal_queue.append(handler.handler_id)\n        self._evict_oldest_completed()", "C24.R2"),
+    Twin("cap applied to all handlers", _PM, "while len(self._terminal_queue) > self.max_completed:", "while len(self.handlers) > self.max_completed and self._terminal_queue:", "C24.R2"),
+    # ---- R3 breaking
+    Twin("stale entry evicts a re-opened (running) handler", _PM, "            if not is_terminal_status(handler.status):\n", "            if False:\n", "C24.R3"),
+    Twin("newest completion evicted first", _PM, "handler_id = self._terminal_queue.popleft()", "handler_id = self._terminal_queue.pop()", "C24.R3"),
+    Twin("completions queued at the front", _PM, "self._terminal_queue.append(handler.handler_id)", "self._terminal_queue.appendleft(handler.handler_id)", "C24.R3"),
+    Twin("uncapped store compares with None", _PM, "        if self.max_completed is None:\n            return\n", "", "C24.R3"),
+    # ---- R4 breaking
+    Twin("idle_since=None indistinguishable from 'not given'", _PA, "        if not isinstance(idle_since, _Unset):\n            handler.idle_since = idle_since", "        if not isinstance(idle_since, _Unset) and idle_since is not None:\n            handler.idle_since = idle_since", "C24.R4"),
+    Twin("status update clears the error", _PA, "        if error is not None:\n            handler.error = error", "        handler.error = error", "C24.R4"),
+    # ---- benign
+    Twin("benign: memory empty-list test is implied by the membership test", _PM, "        if len(query.status_in) == 0:\n            return False\n", "", None),
+    Twin("benign: sqlite `IN ()` already matches nothing", _PS, "            if len(query.status_in) == 0:\n                return None\n", "", None),
+    Twin("benign: truthiness instead of len()", _PM, "if len(query.handler_id_in) == 0:", "if not query.handler_id_in:", None),
+    Twin("benign: idle test folded into one condition", _PM, "    if query.is_idle is not None:\n        handler_is_idle = handler.idle_since is not None\n        if query.is_idle != handler_is_idle:\n            return False", "    if query.is_idle is not None and query.is_idle != (handler.idle_since is not None):\n        return False", None),
+    Twin("benign: placeholders built by a generator", _PS, 'placeholders = ",".join(["?"] * len(values))', 'placeholders = ", ".join("?" for _ in values)', None),
+    Twin("benign: NOT ... IS NULL", _PS, 'clauses.append("idle_since IS NOT NULL")', 'clauses.append("NOT idle_since IS NULL")', None),
+    Twin("benign: delete without the defensive list() copy", _PM, "for handler_id, handler in list(self.handlers.items())", "for handler_id, handler in self.handlers.items()", None),
+    Twin("benign: reversed cap comparison", _PM, "while len(self._terminal_queue) > self.max_completed:", "while self.max_completed < len(self._terminal_queue):", None),
+    Twin("benign: del instead of pop", _PM, "            self.handlers.pop(handler_id, None)\n            run_id = handler.run_id", "            del self.handlers[handler_id]\n            run_id = handler.run_id", None),
+    Twin("benign: guards merged", _PM, "            if handler is None:\n                # Already removed (e.g. via delete()), skip.\n                continue\n            if not is_terminal_status(handler.status):", "            if handler is None or not is_terminal_status(handler.status):", None),
+    Twin("benign: terminal statuses tested through the helper", _PA, 'if status in ("completed", "failed", "cancelled"):', "if status is not None and is_terminal_status(status):", None),
+    Twin("benign: status update reads the handler by position", _PA, "        handler = found[0]\n", "        handler = found[-1] if len(found) == 1 else found[0]\n", None),
+]
